@@ -105,7 +105,12 @@ fn mutate(m: &mut RequestMetrics, by: u64) {
     for _ in 0..by {
         m.items += 1;
     }
-    m.hits.add(by);
+    // through the shared reference, in two portions and one increment
+    if by > 0 {
+        m.hits.add((by - 1) / 2);
+        m.hits.add(by - 1 - (by - 1) / 2);
+        m.hits.increment();
+    }
 }
 
 /// what the sub-task holds
